@@ -357,6 +357,9 @@ class Verdict:
         if key in self.known:
             self.known_hits[key] = self.known_hits.get(key, 0) + 1
             return False
+        if key.startswith('probe:timeout'):      # the watchdog around a batch of probe commands fired: a loaded machine, never a verdict
+            self.inconclusive += 1
+            return False
         self.n += 1
         rd = os.path.join(VERIF, 'replay', self.pid)
         os.makedirs(rd, exist_ok=True)
